@@ -48,6 +48,27 @@ func c08Lines(src string) []string {
 
 var c08DumpOpts = synt.DumpOpts{Positions: true, Comments: true}
 
+// c08StreamOpt is one value of the parser-option dimension of the streaming
+// part: every (program, variant) is streamed through parsers built with each
+// option set, and compared with a Parse by a parser with the same options.
+// The reference for Incomplete (c08Unfinished) always keeps comments: it needs
+// them to judge continuations, and it is independent of the object under test.
+type c08StreamOpt struct {
+	Name      string
+	KeySuffix string
+	New       func(lang syntax.LangVariant) *syntax.Parser
+}
+
+var c08StreamOpts = []c08StreamOpt{
+	{"KeepComments", "", func(lang syntax.LangVariant) *syntax.Parser {
+		return syntax.NewParser(syntax.Variant(lang), syntax.KeepComments(true))
+	}},
+	// the default parser: what cmd/gosh's interactive loop and most users build
+	{"default", "+default-options", func(lang syntax.LangVariant) *syntax.Parser {
+		return syntax.NewParser(syntax.Variant(lang))
+	}},
+}
+
 func c08StmtDumps(stmts []*syntax.Stmt) []string {
 	out := make([]string, len(stmts))
 	for i, s := range stmts {
@@ -167,14 +188,21 @@ func c08EndsInContinuation(s string) bool {
 // Parse, and stopping InteractiveSeq early at every callback.
 func c08Stream(c *vc.Ctx, t c08Case) *vc.Fail {
 	lang := synt.LangByName(t.Variant)
-	key := t.Variant + " " + fmt.Sprintf("%q", t.Src)
-	newp := func() *syntax.Parser { return syntax.NewParser(syntax.Variant(lang), syntax.KeepComments(true)) }
+	if t.Opt < 0 || t.Opt >= len(c08StreamOpts) {
+		return vc.Failf("bad case", "unknown stream option set %d", t.Opt)
+	}
+	so := c08StreamOpts[t.Opt]
+	// option set 0 keeps the keys of the rounds before the option dimension existed
+	vtag := t.Variant + so.KeySuffix
+	key := vtag + " " + fmt.Sprintf("%q", t.Src)
+	newp := func() *syntax.Parser { return so.New(lang) }
 	f, err := newp().Parse(strings.NewReader(t.Src), "")
 	if err != nil {
 		c.Count("stream_pairs_not_parsing", 1)
 		return nil
 	}
 	c.Count("stream_pairs_parsing", 1)
+	c.Count("stream_pairs_parsing_opts_"+so.Name, 1)
 	want := c08StmtDumps(f.Stmts)
 
 	// (1) StmtsSeq
@@ -194,7 +222,7 @@ func c08Stream(c *vc.Ctx, t c08Case) *vc.Fail {
 		return fl
 	}
 	if serr != "" {
-		return &vc.Fail{Key: key + " stmtsseq-error", Msg: fmt.Sprintf("[%s] %s parses, but StmtsSeq yields error %q", t.Variant, shortSrc(t.Src), serr)}
+		return &vc.Fail{Key: key + " stmtsseq-error", Msg: fmt.Sprintf("[%s] %s parses, but StmtsSeq yields error %q", vtag, shortSrc(t.Src), serr)}
 	}
 	if d := c08FirstDiff(got, want); d != "" {
 		class := ""
@@ -213,7 +241,7 @@ func c08Stream(c *vc.Ctx, t c08Case) *vc.Fail {
 				class = "stmtsseq-yields-statement-before-its-heredoc-body"
 			}
 		}
-		return &vc.Fail{Key: key + " stmtsseq-differs", Class: class, Msg: fmt.Sprintf("[%s] %s: StmtsSeq statements differ from Parse: %s", t.Variant, shortSrc(t.Src), d),
+		return &vc.Fail{Key: key + " stmtsseq-differs", Class: class, Msg: fmt.Sprintf("[%s] %s: StmtsSeq statements differ from Parse: %s", vtag, shortSrc(t.Src), d),
 			Detail: map[string]any{"stmtsseq": got, "parse": want}}
 	}
 
@@ -233,7 +261,7 @@ func c08Stream(c *vc.Ctx, t c08Case) *vc.Fail {
 	for i, cb := range cbs {
 		seenK[cb.K] = true
 		if cb.Err != "" {
-			return &vc.Fail{Key: key + " interactive-error", Msg: fmt.Sprintf("[%s] %s parses, but InteractiveSeq callback %d reports error %q", t.Variant, shortSrc(t.Src), i, cb.Err)}
+			return &vc.Fail{Key: key + " interactive-error", Msg: fmt.Sprintf("[%s] %s parses, but InteractiveSeq callback %d reports error %q", vtag, shortSrc(t.Src), i, cb.Err)}
 		}
 		prefix := strings.Join(lines[:cb.K], "")
 		unf, judged := c08Unfinished(prefix, lang)
@@ -251,7 +279,7 @@ func c08Stream(c *vc.Ctx, t c08Case) *vc.Fail {
 				dir = "complete-but-unfinished"
 			}
 			return &vc.Fail{Key: fmt.Sprintf("%s %s cb=%d", key, dir, i), Class: c08IncClass(dir, prefix, lines, cb.K),
-				Msg: fmt.Sprintf("[%s] %s: at callback %d (after %d line(s), consumed %q) Incomplete()=%v but the reference says unfinished=%v", t.Variant, shortSrc(t.Src), i, cb.K, prefix, cb.Inc, unf)}
+				Msg: fmt.Sprintf("[%s] %s: at callback %d (after %d line(s), consumed %q) Incomplete()=%v but the reference says unfinished=%v", vtag, shortSrc(t.Src), i, cb.K, prefix, cb.Inc, unf)}
 		}
 		if cb.Inc {
 			c.Count("interactive_incomplete_callbacks", 1)
@@ -259,7 +287,7 @@ func c08Stream(c *vc.Ctx, t c08Case) *vc.Fail {
 			// next statements Parse returns, not yet handed out for running
 			if len(run)+len(cb.Stmts) > len(want) || c08FirstDiff(cb.Stmts, want[len(run):len(run)+len(cb.Stmts)]) != "" {
 				return &vc.Fail{Key: fmt.Sprintf("%s incomplete-callback-stmts cb=%d", key, i),
-					Msg:    fmt.Sprintf("[%s] %s: statements passed to the Incomplete callback %d are not the next statements of Parse", t.Variant, shortSrc(t.Src), i),
+					Msg:    fmt.Sprintf("[%s] %s: statements passed to the Incomplete callback %d are not the next statements of Parse", vtag, shortSrc(t.Src), i),
 					Detail: map[string]any{"callback": cb.Stmts, "parse": want, "already_run": len(run)}}
 			}
 			continue
@@ -287,7 +315,7 @@ func c08Stream(c *vc.Ctx, t c08Case) *vc.Fail {
 				return true
 			})
 			return &vc.Fail{Key: fmt.Sprintf("%s no-callback-for-incomplete-line=%d", key, k), Class: class,
-				Msg: fmt.Sprintf("[%s] %s: line %d ends inside an unfinished statement (consumed %q) but no callback was made before the next line was read", t.Variant, shortSrc(t.Src), k, strings.Join(lines[:k], ""))}
+				Msg: fmt.Sprintf("[%s] %s: line %d ends inside an unfinished statement (consumed %q) but no callback was made before the next line was read", vtag, shortSrc(t.Src), k, strings.Join(lines[:k], ""))}
 		}
 	}
 	if d := c08FirstDiff(run, want); d != "" {
@@ -305,7 +333,7 @@ func c08Stream(c *vc.Ctx, t c08Case) *vc.Fail {
 			}
 		}
 		return &vc.Fail{Key: key + " interactive-differs", Class: class,
-			Msg:    fmt.Sprintf("[%s] %s fed line by line: statements handed out by InteractiveSeq (callbacks with Incomplete()=false) differ from Parse: %s", t.Variant, shortSrc(t.Src), d),
+			Msg:    fmt.Sprintf("[%s] %s fed line by line: statements handed out by InteractiveSeq (callbacks with Incomplete()=false) differ from Parse: %s", vtag, shortSrc(t.Src), d),
 			Detail: map[string]any{"interactive": run, "parse": want, "callbacks": cbs}}
 	}
 
@@ -321,7 +349,7 @@ func c08Stream(c *vc.Ctx, t c08Case) *vc.Fail {
 						class = "interactiveseq-early-stop-calls-yield-again"
 					}
 					fl = &vc.Fail{Key: fmt.Sprintf("%s stop-at-callback=%d panic", key, j), Class: class,
-						Msg: fmt.Sprintf("[%s] %s: leaving the InteractiveSeq loop at callback %d (Incomplete()=%v): panic: %v", t.Variant, shortSrc(t.Src), j, cbs[j].Inc, r)}
+						Msg: fmt.Sprintf("[%s] %s: leaving the InteractiveSeq loop at callback %d (Incomplete()=%v): panic: %v", vtag, shortSrc(t.Src), j, cbs[j].Inc, r)}
 				}
 			}()
 			c08RunInteractive(newp(), lines, j, true)
@@ -463,6 +491,21 @@ var c08Statements = []string{
 	"a; b 'x\ny'; c",
 	"a $(b <<E\nbody\nE\n)",
 	"a <<E; b\nbody\nE",
+	// --- round 3: blank lines that are not empty, and a line ending in a
+	// backslash in every lexer context that looks at escaped newlines
+	"  ",
+	"\t",
+	"# c \\",
+	"a # c \\",
+	"\\",
+	"a 'x \\\ny'",
+	"a \"x \\\ny\"",
+	"a <<E\nbody \\\nmore\nE",
+	"a <<'E'\nbody \\\nE",
+	"a $((1 + \\\n2))",
+	"[[ a && \\\nb ]]",
+	"a `b \\\nc`",
+	"a ${x:-y \\\nz}",
 }
 
 // c08GenStream emits the (program, variant) pairs of parts 1 and 2.
@@ -474,7 +517,9 @@ func c08GenStream(c *vc.Ctx, emit func(c08Case)) {
 		}
 		seen[src] = true
 		for _, v := range variants {
-			emit(c08Case{Part: "stream", Src: src, Variant: v, Kind: kind})
+			for oi := range c08StreamOpts {
+				emit(c08Case{Part: "stream", Src: src, Variant: v, Kind: kind, Opt: oi})
+			}
 		}
 	}
 	all := []string{"bash", "posix", "mksh", "bats", "zsh"}
@@ -503,7 +548,7 @@ func c08GenStream(c *vc.Ctx, emit func(c08Case)) {
 	})
 	// every depth<=1 template with ALL statement/opening gaps on their own line
 	for _, t := range synt.Templates("S", 1, false) {
-		for _, nl := range []string{"\n", "\n\n", " # c\n"} {
+		for _, nl := range []string{"\n", "\n\n", " # c\n", "\n\t\n", " # c \\\n"} {
 			tt := strings.NewReplacer("¶", nl, "¤", nl).Replace(t)
 			src, _ := synt.Render(tt, -1, 0)
 			if nl == "\n" || !c.Quick() {
